@@ -372,6 +372,10 @@ class Unit:
 
     def _apply(self, src, s, e, edits):
         """Emit src[s:e] with edits [(a,b,text,tag)] (sorted, non-overlapping)."""
+        # an edit that lies strictly inside a replaced range (e.g. E4 inside a statement removed by
+        # the join expansion) is subsumed by the outer edit
+        outer = [(a, b) for (a, b, _, _) in edits if b > a]
+        edits = [e_ for e_ in edits if not any(oa <= e_[0] and e_[1] <= ob and (oa, ob) != (e_[0], e_[1]) and not (e_[0] == e_[1] == oa) for (oa, ob) in outer)]
         edits = sorted(enumerate(edits), key=lambda p: (p[1][0], p[0]))
         pos = s
         for _, (a, b, text, tag) in edits:
